@@ -756,8 +756,8 @@ fn run(args: &[String]) -> i32 {
         extra.insert("exhaustive".into(), json!(true));
         extra.insert("exhaustive_scope".into(), json!("every operation index x 9 fault kinds x {same session, restart} of the base histories of scenario session_enum; the session_faults part samples"));
     }
-    extra.insert("components_real".into(), json!(["isograph_compiler::{CompilerState, compile, update_sources, handle_watch_command, categorisation}", "artifact_content::{get_artifact_path_and_content, FileSystemState}", "isograph_schema (validation, database)", "pico (with LRU capacity override)", "std::fs on tmpfs"]));
-    extra.insert("components_stubbed".into(), json!(["kernel->notify event mapping (calibrated stub)", "debounce timing: notify-debouncer-full's event queue logic re-implemented over simulated time (see DESIGN.md 5.1)", "language-server select! loop skeleton", "I/O faults are injected at seam H3 instead of in the kernel"]));
+    extra.insert("components_real".into(), json!(["isograph_compiler::{CompilerState, compile, update_sources, handle_watch_command, categorisation}", "artifact_content::{get_artifact_path_and_content, FileSystemState}", "isograph_schema (validation, database)", "pico (with LRU capacity override)", "std::fs on tmpfs (through the interposed libc entry points)", "isograph_lsp request / notification handlers, LspState, diagnostics publishing"]));
+    extra.insert("components_stubbed".into(), json!(["kernel->notify event mapping (calibrated stub)", "debounce timing: notify-debouncer-full's event queue logic re-implemented over simulated time (see DESIGN.md 5.1)", "language-server select! loop skeleton", "I/O faults are injected at the operation seam H3 and at the libc entry points (LD_PRELOAD), not in the kernel; the file system is tmpfs"]));
     let ev = Evidence {
         property_id: property.clone(),
         tier: tier.clone(),
@@ -770,7 +770,8 @@ fn run(args: &[String]) -> i32 {
         extra,
         assumptions: vec![
             "the file contents come from a fixed pool of snippets over one schema: this check searches histories, schedules and faults, not compiler inputs".into(),
-            "faults are injected at the operation boundary of apply_file_system_operations (seam H3); a fault inside a single std::fs call is modelled by the torn / partial variants".into(),
+            "faults are injected at the operation boundary of apply_file_system_operations (seam H3) and at the libc calls std::fs makes below the artifact directory (LD_PRELOAD seam: error, performed-then-error, torn write, full disk, kill at a call, short writes, EINTR); power loss / fsync ordering is not modelled".into(),
+            "every history runs on a fresh thread after the hash-seed stream was restarted, in a process warmed up by a constant sequence of compiles that pins the intern ids of every name keying a hash map; ./check --selftest compares this against one forked child per history".into(),
         ],
         wall_s: wall,
         violations: reported,
